@@ -38,7 +38,7 @@ func TestVerif_C10(t *testing.T) {
 	mc.Run(t, "C10", func(r *mc.R) {
 		maxLen := mc.Pick(r, 5, 6)
 		r.Rule("all nibble sequences of length 0..L over 16 nibble values x terminator{no,yes}; each is one case; " +
-			"distinct = distinct compact encodings observed (injectivity is asserted through the same set); plus all byte keys of length<=2")
+			"distinct = distinct compact encodings observed (injectivity is asserted through the same set); every conversion is called twice with the first result overwritten over its capacity in between (results must not share memory with later calls); plus all byte keys of length<=2")
 		r.Bound("max_nibbles", maxLen)
 		type shard struct {
 			l     int
@@ -99,12 +99,27 @@ func TestVerif_C10(t *testing.T) {
 								return fmt.Errorf("hexToCompactInPlace(%x)=%x != hexToCompact %x", hex, inpl, enc)
 							}
 						}
+						// results are owned by the caller: overwriting a returned slice over its whole capacity (what a
+						// caller appending a terminator or re-encoding in place does) must not change what the next call
+						// returns, i.e. no conversion hands out memory it shares with later calls.
+						if err := c10Owned("hexToCompact", func() []byte { return hexToCompact(append([]byte{}, hex...)) }); err != nil {
+							return err
+						}
+						if err := c10Owned("compactToHex", func() []byte { return compactToHex(append([]byte{}, enc...)) }); err != nil {
+							return err
+						}
 						if prev, dup := seen[string(enc)]; dup {
 							return fmt.Errorf("compact form %x shared by %s and %x/term=%v", enc, prev, path, term)
 						}
 						seen[string(enc)] = fmt.Sprintf("%x/term=%v", path, term)
 						if len(path)%2 == 0 {
 							kb := hexToKeybytes(append([]byte{}, hex...))
+							if err := c10Owned("hexToKeybytes", func() []byte { return hexToKeybytes(append([]byte{}, hex...)) }); err != nil {
+								return err
+							}
+							if err := c10Owned("keybytesToHex", func() []byte { return keybytesToHex(append([]byte{}, kb...)) }); err != nil {
+								return err
+							}
 							h2 := keybytesToHex(kb)
 							if !bytes.Equal(h2[:len(h2)-1], path) || h2[len(h2)-1] != 16 {
 								return fmt.Errorf("keybytesToHex(hexToKeybytes(%x))=%x", hex, h2)
@@ -221,6 +236,28 @@ func TestVerif_C10(t *testing.T) {
 			}
 		}
 	})
+}
+
+// c10Owned calls f, overwrites the returned slice over its whole capacity, calls f again and requires the same answer; the
+// overwrite is undone afterwards so that a shared buffer (if a change introduces one) is reported by the case that found it
+// and not by an unrelated later case.
+func c10Owned(name string, f func() []byte) error {
+	a := f()
+	want := append([]byte{}, a...)
+	full := a[:cap(a)]
+	for i := range full {
+		full[i] ^= 0xa5
+	}
+	b := f()
+	ok := bytes.Equal(b, want)
+	got := append([]byte{}, b...)
+	for i := range full {
+		full[i] ^= 0xa5
+	}
+	if !ok {
+		return fmt.Errorf("%s returned %x, then %x after the caller overwrote the first result (len %d cap %d): the result shares memory with later calls", name, want, got, len(want), len(full))
+	}
+	return nil
 }
 
 func toInts(b []byte) []int {
